@@ -46,6 +46,60 @@ BUILT = {
         note="Strings/bytes ordering is covered only through C13's sort cases. Trusted: TLC, lib/BigNum, f64::to_bits, "
              "harness projection.",
         technique="TLA+ spec (NumTower exact order) + TLC bounded model checking with case replay + TLC trace validation"),
+    "C01": dict(
+        cat="model_checking", design="DESIGN.md §4 C01",
+        text="The oracle is spec/Lang.tla, a reference interpreter over immutable values in which every mutation "
+             "statement is a functional update of exactly one variable (set_index / modify_existing_index / the "
+             "drop-LHS operator-assignment protocol are transcribed, incl. default materialisation and partial "
+             "effects of failing statements). TLC explores every history of <=3 (quick) / 4 (thorough) statements "
+             "over a 36-statement mutation vocabulary on top of an aliased prelude (nested lists, dict with default, "
+             "vector), checks Frame (nothing outside the statement's write set changes, whatever the alias graph) "
+             "and prints every transition; each is replayed in the real interpreter and all tracked variables are "
+             "compared. Trace validation: random histories of 30-60 statements over 6 variables (aliasing through "
+             "variables, elements, closures, arguments; index/op/every assignment, pop, remove, swap, consume, update "
+             "expressions, loops) are re-executed by the specification statement by statement with a full snapshot "
+             "comparison after each.",
+        note="Struct instances and strings as mutation targets are not in the vocabulary; iteration over multi-entry "
+             "dicts is excluded (unspecified order). The Rc/COW heap layer is judged through its observable effect "
+             "(values) here and through allocation in C02. Trusted: TLC, the source printer, harness projection.",
+        technique="TLA+ reference interpreter (Lang) + TLC bounded exploration of statement histories with replay of every "
+                  "transition + TLC trace validation of random histories"),
+    "C10": dict(
+        cat="model_checking", design="DESIGN.md §4 C10",
+        text="TLC exhaustively enumerates sequence kind (list, strings with 1-4 byte code points, vector, bytes, three "
+             "stream constructors) x length 0..5 (thorough 0..7) x every index / slice bound in [-len-3, len+3] plus "
+             "+-2^63, +-(2^63-1), +-2^64, +-10^30, non-integers, null and omitted x every read, accessor builtin and "
+             "write statement x surface form, with the Python index/slice lemmas of spec/Index.tla (range iff, clamp "
+             "order, slice concatenation, read/write and remove/read address agreement, UTF-8 validity) checked as "
+             "ASSUMEs and per-case invariants. Every enumerated case (about 1.1e5 quick, 2.1e5 thorough) is replayed "
+             "in the real interpreter and compared with the value, outcome class and post-state the specification "
+             "computed, including that reads leave the variable unchanged. A seeded driver runs reads, slices, "
+             "accessor builtins and indexed writes on random sequences up to length 40 and Trace_Index.tla recomputes "
+             "every observation from the logged arguments.",
+        note="Trusted: TLC, CommunityModules, lib/BigNum, harness projection, python UTF-8 codec for rendering. !? is "
+             "non-wrapping and !%/slice bounds beyond a machine word may raise (named rules); !?/!% on streams, null "
+             "slice bounds, string writes yielding invalid UTF-8 and x[a:b]=v without every (todo!) are outside the "
+             "property. Known finding: uncons/unsnoc split strings by character, not byte.",
+        technique="TLA+ spec (Index/BigNum) + TLC bounded exhaustive enumeration with lemma checking and replay of every "
+                  "case + TLC trace validation of recorded interpreter runs"),
+    "C11": dict(
+        cat="model_checking", design="DESIGN.md §4 C11",
+        text="spec/Streams.tla defines every stream type twice - a cursor state machine (one next) and a declarative "
+             "denotation of what is still to come (arithmetic progressions of any step sign incl. beyond 2^63; "
+             "lexicographic index vectors for permutations / combinations / cartesian powers; binary order for "
+             "subsequences; pointwise map / filter / zip; recurrences for repeat, cycle, iterate, iota) - plus the "
+             "closed-form lengths. TLC explores every constructor with all small parameters at every drop position and "
+             "checks that machine, denotation and closed forms agree (DeclAgreesOp, LenAgrees, NextAgrees, InfAgrees). "
+             "Every state is replayed in the real interpreter as a walk on ONE variable: about 60 observations (len, "
+             "list, index, slice, reverse, last, first, in, truthiness, unpacking, for, take, drop) and every ordered "
+             "pair of 12 of them adjacently, each compared with the result defined on the denoted list. A seeded "
+             "driver observes random pipelines (depth <= 3) about 30 times in random order and Trace_Streams.tla must "
+             "explain all observations with one unchanged stream value.",
+        note="Trusted: TLC, CommunityModules, lib/BigNum, spec/Index.tla, harness projection (first 48 elements of a "
+             "stream). Element functions from a small pure family; len/truthiness of lazy map/zip over infinite "
+             "streams, end-dependent observations of infinite streams, permutations([]) / cycle([]) (C14) are outside.",
+        technique="TLA+ cursor-state-machine + denotational spec (Streams/Index/BigNum) + TLC bounded model checking of "
+                  "coherence invariants with replay of every state as an observation walk + TLC trace validation"),
 }
 PENDING = "check not built yet in this round (planned, see DESIGN.md section 4 and 9)"
 ALL = ["C%02d" % i for i in range(1, 18)]
